@@ -7,8 +7,8 @@
 From Coq Require Import Sorting.Permutation Sorting.Sorted.
 From CKC Require Import Base.Prelude Base.Reflect Base.SortN Base.Combs Spec.Layout Spec.Poker.
 From CKC Require Import Model.Card Model.Hands Model.Five Model.HandRank.
-From CKC Require Import Proofs.CardFacts Proofs.SortFacts Proofs.CombFacts Proofs.BitFacts Proofs.FiveFacts
-  Proofs.ShapeFacts Proofs.ValidFacts Proofs.HandFacts Proofs.BestFacts.
+From CKC Require Import Proofs.CardBase Proofs.SortFacts Proofs.CombFacts Proofs.BitFacts Proofs.FiveFacts
+  Proofs.ShapeFacts Proofs.ValidReal Proofs.HandFacts Proofs.BestFacts.
 From CKC Require Export Proofs.FreeFacts.
 From CKC Require Import Gen.Consts Gen.Decks.
 Open Scope N_scope.
@@ -150,7 +150,7 @@ Proof.
   assert (E1 : hand_rank_value chk ws = Ok v) by (unfold hand_rank_value, rmap; rewrite Hr; reflexivity).
   pose proof H as (HL & HR & HN).
   split; [exact E1|]. split; [rewrite E1; reflexivity|]. split; [rewrite Hr; reflexivity|].
-  split; [unfold hand_rank_value_validated; rewrite (proj2 (is_valid_spec ws) (conj HR HN)); exact E1|].
+  split; [unfold hand_rank_value_validated; rewrite (is_valid_real ws HR HN); exact E1|].
   split.
   - rewrite <- Hv. apply HV. apply (sel_hand5 n ws p H (proj2 T p Hp)).
   - exists p. split; [exact Hp|]. split; [exact (proj2 T p Hp) | symmetry; exact Hv].
@@ -224,7 +224,7 @@ Proof.
   destruct Core as [E0 NZ].
   assert (E1 : hand_rank_value chk ws = Ok v) by exact E0.
   split; [exact E1|]. split; [rewrite E1; reflexivity|]. split; [exact E0|].
-  split; [unfold hand_rank_value_validated; rewrite (proj2 (is_valid_spec ws) (conj HR HN)); exact E1 | exact NZ].
+  split; [unfold hand_rank_value_validated; rewrite (is_valid_real ws HR HN); exact E1 | exact NZ].
 Qed.
 
 (* any five distinct cards taken from the hand, in any order, are no stronger than the hand *)
